@@ -144,6 +144,29 @@ def run_case(case):
         qs.append((sp, got))
         lines.append(f"FIND {ni.sp(sp)} " + d1)
         tags.append("find:" + mode)
+    # the same second history on the same network declared in another variable order: the two diagrams
+    # have the same spaces and edges, so the comparison functions must not see a difference
+    if ni.n >= 2:
+        oc = dict(case, order=list(reversed(range(ni.n))))
+        sd2o = plain.make_sd_ordered(oc)
+        nio = common.NetInfo(sd2o.network)
+        for op in case["ops2"]:
+            try:
+                plain.apply_op(sd2o, nio, op)
+            except RuntimeError:
+                pass
+        a, b = plain.abstract(common.dump_sd(sd2, ni)), None
+        sp2 = {tuple(sorted(sd2.node_data(i)["space"].items())) for i in sd2.node_ids()}
+        spo = {tuple(sorted(sd2o.node_data(i)["space"].items())) for i in sd2o.node_ids()}
+        e2 = {(tuple(sorted(sd2.node_data(u)["space"].items())), tuple(sorted(sd2.node_data(v)["space"].items()))) for u, v in sd2.dag.edges()}
+        eo = {(tuple(sorted(sd2o.node_data(u)["space"].items())), tuple(sorted(sd2o.node_data(v)["space"].items()))) for u, v in sd2o.dag.edges()}
+        if sp2 == spo and e2 == eo:
+            if not (sd2.is_isomorphic(sd2o) and sd2o.is_subgraph(sd2) and sd2.is_subgraph(sd2o)):
+                fails.append({"kind": "is-subgraph", "sig": {"what": "declared-order"}, "detail":
+                              "two diagrams of the same network declared in different variable orders have the same spaces and edges, but is_subgraph/is_isomorphic is False"})
+            for i in list(sd2.node_ids())[:4]:
+                if sd2o.find_node(sd2.node_data(i)["space"]) is None:
+                    fails.append({"kind": "find-node", "sig": {"what": "declared-order"}, "detail": "node of one diagram not found in the other"})
     sub12, sub21, iso = sd1.is_subgraph(sd2), sd2.is_subgraph(sd1), sd1.is_isomorphic(sd2)
     lines.append(f"SUBGRAPH {d1} || {d2}")
     lines.append(f"SUBGRAPH {d2} || {d1}")
